@@ -184,6 +184,10 @@ where
         let smap = state.get_smap();
 
         let mut x = LTerm::empty_list();
+        #[cfg(terohuttunen_proto_vulcan_verif)]
+        if Rc::strong_count(&self) > 1 {
+            crate::verif_sim::probe("cow_copy_distinctfd2", 0);
+        }
         let mut mself = Rc::make_mut(&mut self);
         for y in mself.y.into_iter() {
             let ywalk = smap.walk(&y);
